@@ -15,8 +15,9 @@ using namespace tulz;
 namespace vf {
 namespace {
 
-constexpr int U = 8;        // observer universe
-constexpr int MAXDEPTH = 3; // nested notify allowed while depth < MAXDEPTH
+constexpr int U = 48;       // observer universe: 8 scripted observers + up to 40 passive ones ("crowd")
+constexpr int SCRIPTED = 8;
+int MAXDEPTH = 3;           // nested notify allowed while depth < MAXDEPTH (3, or 7 in deep cases)
 enum A { SUBSCRIBE = 0, UNSUBSCRIBE, MUTE, UNMUTE, INVALIDATE, NESTED_NOTIFY, SELF_INVALIDATE, NA };
 const char *aname[] = {"subscribe", "unsubscribe", "mute", "unmute", "invalidate", "nested_notify", "self_invalidate"};
 
@@ -130,20 +131,35 @@ struct Real {
 void run_c10(const Case &c) {
     int n0 = 1 + (unsigned)hget(c, 0, 0) % 6;
     int tops = 1 + (unsigned)hget(c, 1, 0) % 4;
+    MAXDEPTH = (hget(c, 2, 0) & 1) ? 7 : 3;                          // deep nesting in some cases
+    static const int crowd[4] = {0, 0, 12, 36};
+    const int passive = crowd[(unsigned)hget(c, 3, 0) % 4];          // passive observers subscribed after the scripted ones
+    if (MAXDEPTH > 3) label("deep_nesting_allowed"); if (passive) label(passive > 16 ? "crowd_over_16" : "crowd");
     std::vector<Action> acts;
     for (const Op &o : c.ops) {
         if (o.k < 0 || o.k >= NA) { count_skipped(); continue; }
         // interpretive decoding, biased towards what is reachable: owners/targets near the initially subscribed set, shallow depths
         static const int depthmap[8] = {0, 0, 0, 0, 1, 1, 2, 3};
-        Action a; a.kind = o.k; a.owner = (unsigned)o.a % (unsigned)std::min(U, n0 + 2); a.target = (unsigned)o.b % (unsigned)std::min(U, n0 + 3);
-        a.depth = depthmap[(unsigned)o.c % 8]; a.arg = 100 + (int)acts.size();
+        static const int deepmap[16] = {0, 0, 0, 1, 1, 1, 2, 2, 3, 3, 4, 4, 5, 5, 6, 7};
+        Action a; a.kind = o.k; a.owner = (unsigned)o.a % (unsigned)std::min(SCRIPTED, n0 + 2); a.target = (unsigned)o.b % (unsigned)std::min(SCRIPTED, n0 + 3);
+        if (passive > 0 && ((unsigned)o.b >> 3) % 4 == 3) a.target = SCRIPTED + (int)(((unsigned)o.b >> 5) % (unsigned)passive);   // sometimes one of the crowd
+        a.depth = MAXDEPTH > 3 ? deepmap[(unsigned)o.c % 16] : depthmap[(unsigned)o.c % 8]; a.arg = 100 + (int)acts.size();
         if (a.kind == SELF_INVALIDATE) a.target = a.owner;
         acts.push_back(a);
         note("action %zu: observer %d at depth %d: %s target %d", acts.size() - 1, a.owner, a.depth, aname[a.kind], a.target);
     }
+    // "countdown" shape: observer 0 re-notifies at every depth 0..k-1, so the nesting really reaches depth k
+    if (MAXDEPTH > 3 && ((unsigned)hget(c, 4, 0) % 3) != 0) {
+        int k = 3 + (int)((unsigned)hget(c, 4, 0) % 4);
+        std::vector<Action> chain;
+        for (int d = 0; d < k; ++d) { Action a; a.kind = NESTED_NOTIFY; a.owner = 0; a.target = 0; a.depth = d; a.arg = 900 + d; chain.push_back(a); }
+        acts.insert(acts.begin(), chain.begin(), chain.end());
+        label("countdown_chain");
+    }
     Model m; m.acts = acts;
     auto real = std::make_unique<Real>(); real->acts = acts;
     for (int i = 0; i < n0; ++i) { m.subscribe(i); real->subscribe(i); }
+    for (int i = 0; i < passive; ++i) { m.subscribe(SCRIPTED + i); real->subscribe(SCRIPTED + i); }
 
     for (int t = 0; t < tops; ++t) {
         m.notify(t, 0);
@@ -169,7 +185,7 @@ void run_c10(const Case &c) {
     label_n("actions_fired", fired); label_n("calls", (long)m.log.size());
     for (auto &a : m.acts) if (a.fired) label((std::string("fired_") + aname[a.kind]).c_str());
     int maxd = 0; for (auto &cl : m.log) maxd = std::max(maxd, cl.depth);
-    if (maxd >= 1) label("nested_round"); if (maxd >= 2) label("nested_round_depth2");
+    if (maxd >= 1) label("nested_round"); if (maxd >= 2) label("nested_round_depth2"); if (maxd >= 5) label("nested_round_depth5");
     count_ops((long)acts.size());
     if (m.nt) nontrivial();
     real.reset();
